@@ -160,6 +160,31 @@ def residual_refs(xform: str) -> int:
     return sum(1 for _, _, v in project.all_attr_values(root) if "${" in v)
 
 
+RE_ROWCITE = re.compile(r"\[row : (\d+)\]")
+
+
+def diagnosis_facts(result, trace):
+    """C17: which rows the error message cites, and which identifiers of the form it names (whole words)."""
+    msg = result.get("message") or ""
+    cited = sorted({int(m) for m in RE_ROWCITE.findall(msg)})
+    vocab = set()
+    for e in trace:
+        if e["ev"] != "row":
+            continue
+        r = e["r"]
+        vocab.update(x for x in (r["name"], r["lname"], r["type"], r["list"]) if x)
+        vocab.update(r["refs"])
+    fn = (trace[0].get("cfg") or {}).get("formname")
+    if fn:
+        vocab.add(fn)
+    low = msg.lower()
+    mentions = set()
+    for v in vocab:
+        if re.search(r"(?<![\w.\-])" + re.escape(v.lower()) + r"(?![\w\-])", low):
+            mentions.update((v, v.lower()))
+    return {"cited": cited, "mentions": sorted(mentions), "has_xform": bool(result.get("xform"))}
+
+
 def build(result: dict, cfg: dict, with_refs: bool = False, src: dict | None = None):
     """-> (trace, in_fragment). result is conv.convert_case output (with events)."""
     rows = [e for e in result.get("events", []) if e["ev"] in ("row", "rows_done") or (with_refs and e["ev"] == "ref")]
@@ -186,6 +211,7 @@ def build(result: dict, cfg: dict, with_refs: bool = False, src: dict | None = N
         else:
             trace.append({"ev": "rows_done", **snap})
     end = {"ev": "end", "status": result["status"]}
+    end.update(diagnosis_facts(result, trace))
     end["residual"] = 0
     if result["status"] == "ok":
         end["obs"] = observe(result["xform"])
